@@ -15,6 +15,16 @@ ASSUME NBlocks(0) = 1 /\ NBlocks(244) = 1 /\ NBlocks(245) = 2 /\ NBlocks(7995148
 (* every single-byte corruption of blocks with 0 / 1 / 244 data bytes is rejected                        *)
 ASSUME \A n \in {0, 1, 244} : \A c \in Corruptions(EncodeBlock(BlockHdr(H0, n, 1), Pattern(n))) : ~DecodeBlock(c).ok
 
+(* block numbers across the 15-bit range, with and without E-bit, as single encoded blocks               *)
+BlkNums == {1, 2, 255, 256, 16383, 16384, 16385, 32766, 32767}
+BlkVec(b, e) == EncodeBlock([H0 EXCEPT !.blk = b, !.e = e], Pattern(3))
+ASSUME \A b \in BlkNums : \A e \in BOOLEAN :
+         LET d == DecodeBlock(BlkVec(b, e)) IN d.ok /\ d.h.blk = b /\ d.h.e = e /\ d.data = Pattern(3)
+ASSUME \A b \in BlkNums : \A e \in BOOLEAN : PrintT(<<"KV", ToJson([blk |-> b, e |-> e, block |-> BlkVec(b, e)])>>)
+(* every single-BIT flip of a block is rejected as well                                                     *)
+BitFlips(b) == UNION {{[b EXCEPT ![i] = IF (b[i] \div k) % 2 = 1 THEN b[i] - k ELSE b[i] + k] : k \in {1, 2, 4, 8, 16, 32, 64, 128}} : i \in 1..Len(b)}
+ASSUME \A c \in BitFlips(EncodeBlock(BlockHdr(H0, 1, 1), Pattern(1))) : ~DecodeBlock(c).ok
+
 ASSUME \A h \in Heads : PrintT(<<"HV", ToJson([h |-> h, block |-> Split(h, Pattern(5))[1]])>>)
 ASSUME \A n \in Lens : PrintT(<<"LV", ToJson([n |-> n, blocks |-> Split(H0, Pattern(n))])>>)
 ASSUME \A k \in {3, 100, 32766, 32767} : \A d \in {0, 1, 2} :
